@@ -311,7 +311,51 @@ def exec_scheduler(plan):
             res.fault("episode_end_on_last_budgeted_step")
     if stub is not None:
         res.simt("train_st_calls", len(stub.calls))
+    if plan.get("check_store"):
+        check_task_stores(res, plan, env, rb, contexts, site)
     return finish_sched(res, plan, env)
+
+
+def check_task_stores(res, plan, env, rb, contexts, site):
+    """C01 in multi-task training: every row stored for task i is a transition the environment produced
+    while task i's context was active, with all fields from that same step; nothing is stored twice."""
+    from .simenv import obs_gid
+
+    steps = {s["gid0"]: s for s in env.steps()}
+    seen = set()
+    for i, buf in enumerate(rb.buffers):
+        n = len(buf)
+        if n == 0:
+            continue
+        ctx = float(contexts[i][0])
+        data = {k: np.asarray(v[:n]) for k, v in buf.buffer.items()}
+        for r in range(n):
+            o, no = data["observation"][r], data["next_observation"][r]
+            if plan["context_aware"]:
+                if float(o[0]) != ctx or float(no[0]) != ctx:
+                    res.violate("C01.a", site, f"task {i} row {r}: stored context {float(o[0])} / {float(no[0])} but the buffer belongs to the task with context {ctx}")
+                    return
+                o, no = o[1:], no[1:]
+            g0, g1 = obs_gid(o), obs_gid(no)
+            s = steps.get(g0)
+            if s is None or g1 != s["gid1"]:
+                res.violate("C01.a", site, f"task {i} row {r}: (observation #{g0}, next #{g1}) is not a transition the environment produced (never-written or mixed storage)")
+                return
+            if s["ctx"] != ctx:
+                res.violate("C01.a", site, f"task {i} row {r}: transition of env step {s['i']} was produced under context {s['ctx']} but is stored in the buffer of the task with context {ctx}")
+                return
+            a = np.asarray(s["a"], dtype=np.float64).reshape(-1)
+            if not np.array_equal(np.asarray(data["action"][r], dtype=np.float64).reshape(-1), a) or float(data["reward"][r]) != float(s["r"]) \
+                    or int(data["termination"][r]) != int(s["term"]):
+                res.violate("C01.a", site, f"task {i} row {r}: action / reward / termination differ from env step {s['i']}")
+                return
+            if s["i"] in seen:
+                res.violate("C01.a", site, f"env step {s['i']} is stored twice")
+                return
+            seen.add(s["i"])
+    res.probe("multitask_rows_checked", len(seen))
+    if len([b for b in rb.buffers if len(b)]) > 1:
+        res.probe("multitask_several_task_buffers")
 
 
 def finish_sched(res, plan, env):
